@@ -453,6 +453,23 @@ def r11_guarded_key(idx, r):
         raise AnchorMissing("Core.add: refusal branch reading self.childrenByLocator[...]")
 
 
+def r12_placeholder_ids_are_negative(idx, r):
+    """Assembly numbers start at 0 (Core.normalizeNames numbers from startIndex=0, makeNameFromAssemNum(0) is A0000): 0 is a real identity.
+    The test in Core.add that recognises a PLACEHOLDER id (and hands out a new number and name) must therefore be strictly `< 0`."""
+    nn = idx.method(CORE, "normalizeNames")
+    d0 = nn.node.args.defaults
+    if not (d0 and isinstance(d0[-1], ast.Constant) and d0[-1].value == 0):
+        raise AnalysisError("Core.normalizeNames no longer starts numbering at 0: revisit R14.12")
+    add = idx.method(CORE, "add")
+    tests = [x.test for x in walk_local(add.node) if isinstance(x, ast.If) and isinstance(x.test, ast.Compare) and "assemNum" in norm(x.test.left) and isinstance(x.test.comparators[0], ast.Constant)]
+    if not tests:
+        raise AnchorMissing("Core.add: placeholder test on assemNum")
+    for t in tests:
+        r.require(isinstance(t.ops[0], ast.Lt) and t.comparators[0].value == 0, "Core.add:placeholder-means-negative", add, node=t,
+                  msg=f"`{norm(t)}` also treats assembly number 0 as a placeholder: A0000 is renumbered and renamed every time it is (re-)added to the core (every shuffle through the pool), so "
+                      "lookups by its name and its history break")
+
+
 def run(idx, chk):
     chk.explanation = (
         "C14: who may write childrenByLocator/assembliesByName/blocksByName; Core.add/removeAssembly touching every table exactly once on "
@@ -477,3 +494,5 @@ def run(idx, chk):
                  necessary="every location holds at most one assembly; names and blocks of pooled assemblies stay findable; block order is preserved by swaps")
     chk.run_rule("R14.11", "a lookup inside a membership-guarded branch uses the tested key", lambda r: r11_guarded_key(idx, r), floor=1,
                  necessary="an add to an occupied location is refused with the documented error")
+    chk.run_rule("R14.12", "only negative assembly numbers are placeholders (0 is a real identity)", lambda r: r12_placeholder_ids_are_negative(idx, r), floor=1,
+                 necessary="an assembly keeps its name through add/remove cycles")
